@@ -1206,7 +1206,13 @@ func SplitBMP(data []byte, atEOF bool) (advance int, token []byte, err error) {
 	if err = tmpHdr.DecodeFromBytes(data[:BMP_HEADER_SIZE]); err != nil {
 		return 0, nil, nil
 	}
-	if len(data) < int(tmpHdr.Length) {
+	// A declared length below the common header size can never frame a
+	// message; returning it as a token of that size (an empty token with no
+	// advance for 0) would make bufio.Scanner spin on the same bytes forever.
+	if tmpHdr.Length < BMP_HEADER_SIZE {
+		return 0, nil, fmt.Errorf("invalid BMP message length %d", tmpHdr.Length)
+	}
+	if uint64(len(data)) < uint64(tmpHdr.Length) {
 		return 0, nil, nil
 	}
 	return int(tmpHdr.Length), data[:tmpHdr.Length], nil
